@@ -385,7 +385,7 @@ Proof.
       * cjf. apply CJ_set_obj; [exact J |]. unfold oj. cbn [upd_obj ocpc oclosed opend orecvb opinned osendb].
         exact (conj A (conj (fun _ => or_introl eq_refl) (conj (fun _ => conj eq_refl eq_refl) D))).
       * intros _. cbn [cadd_free set_obj objs]. rewrite updn_eq. reflexivity.
-    + apply (CJ_set_loop_idle e o s L J). intro Q. assert (oclosed v = true) by (apply A; lia). congruence.
+    + apply (CJ_set_loop_idle e o s L J). intro Q. assert (false = true) by (apply A; fold v in Q; lia). discriminate.
   - unfold c_moveto in E. destruct (usable o s) eqn:U; cbn [negb] in E; [| discriminate]. apply usable_cpc in U.
     destruct (fold_left _ _ _) as [[rb fr0] fb]. inversion E; subst. cjf. apply CJ_set_obj; [exact J | apply oj_cpc0; exact U].
   - unfold c_readk in E. destruct (usable o s) eqn:U; cbn [negb] in E; [| discriminate]. apply usable_cpc in U.
@@ -400,17 +400,17 @@ Proof.
     destruct (Hj o) as (A & B & C & D). fold v in A, B, C, D.
     destruct (ocpc v) as [|[|[|[|[|[|m]]]]]] eqn:Pc; try discriminate.
     + destruct (oclosed v); [discriminate |]. inversion E; subst. apply CJ_set_obj; [exact J |].
-      cbn [upd_obj]. oj4; cbn [ocpc oclosed] in *; try lia; reflexivity.
+      unfold upd_obj. oj4; cbn [ocpc oclosed] in *; try (exfalso; lia); reflexivity.
     + inversion E; subst. eapply CJ_frame; [reflexivity .. |]. apply CJ_set_obj; [exact J |].
-      cbn [with_cpc upd_obj]. oj4; cbn [ocpc oclosed] in *; try lia. apply A. lia.
+      unfold with_cpc, upd_obj. oj4; cbn [ocpc oclosed] in *; try (exfalso; lia). apply A. lia.
     + inversion E; subst. cjf. apply CJ_set_obj; [exact J |].
-      cbn [upd_obj]. oj4; cbn [ocpc oclosed opend] in *; try lia; [apply A; lia | left; reflexivity].
+      unfold upd_obj. oj4; cbn [ocpc oclosed opend] in *; try (exfalso; lia); [apply A; lia | left; reflexivity].
     + inversion E; subst. rewrite Fx. cjf. apply CJ_set_obj; [exact J |].
-      cbn [upd_obj]. oj4; cbn [ocpc oclosed opend orecvb opinned] in *; try lia; [apply A; lia | apply B; lia | split; reflexivity].
+      unfold upd_obj. oj4; cbn [ocpc oclosed opend orecvb opinned] in *; try (exfalso; lia); [apply A; lia | apply B; lia | split; reflexivity].
     + inversion E; subst. cjf. apply CJ_set_obj; [exact J |].
-      cbn [upd_obj]. oj4; cbn [ocpc oclosed opend orecvb opinned osendb] in *; try lia; [apply A; lia | apply B; lia | apply C; lia | reflexivity].
+      unfold upd_obj. oj4; cbn [ocpc oclosed opend orecvb opinned osendb] in *; try (exfalso; lia); [apply A; lia | apply B; lia | apply C; lia | reflexivity].
     + assert (J1 : CJ (set_obj o (with_cpc v 6) s)).
-      { apply CJ_set_obj; [exact J |]. cbn [with_cpc upd_obj]. oj4; cbn [ocpc oclosed opend orecvb opinned osendb] in *;
+      { apply CJ_set_obj; [exact J |]. unfold with_cpc, upd_obj. oj4; cbn [ocpc oclosed opend orecvb opinned osendb] in *;
           [apply A; lia | apply B; lia | apply C; lia | apply D; lia]. }
       destruct (onotify v); cbn [negb] in E; [| inversion E; subst; exact J1].
       destruct (oinfb v || _); inversion E; subst; [apply CJ_sock_close; exact J1 | cjf; exact J1].
